@@ -281,15 +281,15 @@ func runC15(r *report.Run) {
 			variants = append(variants, v)
 		}
 	}
-	hist, trans, _ := asmHistorySearch(depth, variants, func(v asmVariant, al []asmOp, idx []int) (string, string, int) {
+	hist, trans, _ := asmHistorySearch(depth, variants, func(v asmVariant, al []asmOp, idx []int) (string, string, int, *asmHistory) {
 		ops := make([]asmOp, len(idx))
 		for i, k := range idx {
 			ops[i] = al[k]
 		}
 		if d := c15RunOps(v, 256, ops); d != "" {
-			return c15Classify(d), fmt.Sprintf("%+v %v: %s", v, historyNames(al, idx), d), 1
+			return c15Classify(d), fmt.Sprintf("%+v %v: %s", v, historyNames(al, idx), d), 1, nil
 		}
-		return "", "", 1
+		return "", "", 1, nil
 	}, r, 256)
 	// data-length sweep
 	type dl struct {
